@@ -177,3 +177,50 @@ func VerifC17Hist() {
 	}
 	zz.Reach("end")
 }
+
+// VerifC17Relisten: S listening sessions on the same port pair, each with its own receiver, its own sysex option
+// and its own sysex buffer size: every session behaves like a first session with those settings.
+func VerifC17Relisten() {
+	S := zz.Param("S")
+	drv := New("relisten")
+	ins, _ := drv.Ins()
+	outs, _ := drv.Outs()
+	in, out := ins[0], outs[0]
+	zz.Assert(out.Open() == nil, "out.Open:nil")
+	for s := 0; s < S; s++ {
+		bufsize := []int{4, 16}[zz.Choice("sysex-buffer", 2)]
+		sysexOn := zz.Choice("sysex-option", 2) == 1
+		opts := []midi.Option{midi.SysExBufferSize(uint32(bufsize))}
+		if sysexOn {
+			opts = append(opts, midi.UseSysEx())
+		}
+		lg := &c04log{}
+		stop, err := midi.ListenTo(in, lg.recv, opts...)
+		zz.Assert(err == nil && stop != nil, "listen:ok")
+		if err != nil || stop == nil {
+			return
+		}
+		L := []int{4, 10}[zz.Choice("sysex-length", 2)]
+		sx := make([]byte, L)
+		sx[0], sx[L-1] = 0xF0, 0xF7
+		for i := 1; i < L-1; i++ {
+			sx[i] = zz.U8("sx") & 0x7F
+		}
+		key := zz.U8("key") & 0x7F
+		zz.Assert(out.Send(sx) == nil, "send:ok-while-listening")
+		zz.Assert(out.Send(midi.NoteOn(1, key, 1)) == nil, "send:ok-while-listening")
+		stop()
+		var want [][]byte
+		if sysexOn && L <= bufsize {
+			want = append(want, sx)
+		}
+		want = append(want, []byte{0x91, key, 1})
+		zz.Assert(len(lg.got) == len(want), "relisten:session-receives-what-its-own-settings-allow")
+		if len(lg.got) == len(want) {
+			for j := range want {
+				zz.Assert(c04same(lg.got[j].msg, want[j]), "relisten:delivered-in-order-unchanged")
+			}
+		}
+	}
+	zz.Reach("end")
+}
